@@ -68,7 +68,8 @@ def run(ck):
     for fd in (-1, INT_MIN):
         jid += 1
         invalid.append({"id": jid, "tree": tree, "api": "c", "op": {"k": "reopen", "path": H("f"), "flags": 0, "fd_raw": fd}, "meta": {"cls": "negative fd"}})
-    for base in (0, 1, 0x5001FFFE, 0xFFFFFFFFFFFFFFFF, 0x091D5E1F + 1):
+    # (the last three: a valid constant in the low 32 bits, something else above -- a 64-bit argument read as 32 bits would accept them)
+    for base in (0, 1, 0x5001FFFE, 0xFFFFFFFFFFFFFFFF, 0x091D5E1F + 1, (1 << 32) | 0x091D5E1F, (1 << 63) | 0x5001FFFF, (0xDEADBEEF << 32) | 0x3EAD5E1F):
         for k in ("proc_open", "proc_readlink"):
             jid += 1
             invalid.append({"id": jid, "api": "c", "op": {"k": k, "base_raw": base, "path": H("status"), "flags": 0, "bufsize": 8}, "meta": {"cls": "unknown base"}})
